@@ -277,12 +277,15 @@ func (tx *FnTx) afterCall(desc string, post, pre *State, res []Term) *State {
 	}
 	out := post
 	for _, cp := range tx.c.Captures {
-		if strings.Contains(desc, cp.Pattern) && cp.K < len(res) {
+		if strings.Contains(desc, cp.Pattern) {
 			if out == post {
 				out = post.clone()
 			}
-			out.ghost["cap!"+cp.Name] = Term{S: res[cp.K].S, Sort: res[cp.K].Sort, GT: res[cp.K].GT}
+			// captured(c) also works for calls without (that) result: it then only records that the call happened
 			out.ghost["capset!"+cp.Name] = Term{S: "true", Sort: "Bool"}
+			if cp.K < len(res) {
+				out.ghost["cap!"+cp.Name] = Term{S: res[cp.K].S, Sort: res[cp.K].Sort, GT: res[cp.K].GT}
+			}
 		}
 	}
 	return out
